@@ -2558,7 +2558,9 @@ class Env(cabc.MutableMapping):
         # the view without thread-local swaps and overlays.
         cacheable = not self._overlay_stack and not self._d._local
         if self._detyped is not None and cacheable:
-            return self._detyped
+            # callers add settings for their own child to what they get
+            # (GIT_OPTIONAL_LOCKS, HGRCPATH, SHLVL): never hand out the cache
+            return dict(self._detyped)
         ctx = {}
         items = dict(self._d)
         # Apply overlay values on top (most recent overlay wins)
@@ -2584,7 +2586,7 @@ class Env(cabc.MutableMapping):
                 continue
             ctx[key] = deval
         if cacheable:
-            self._detyped = ctx
+            self._detyped = dict(ctx)
         return ctx
 
     def detype_all(self):
